@@ -16,7 +16,9 @@ IntV(n) == [t |-> "int", s |-> "", n |-> n, l |-> <<>>]
 TV(t, n) == [t |-> t, s |-> "", n |-> n, l |-> <<>>]
 
 \* ("= any" is deliberately printed as the key-only form DATA set key; it is not part of the menu)
-OpVals == {<<"=", StrV("v1")>>, <<"=", IntV(5)>>, <<"=", IntV(-5)>>, <<"=", TV("float", 3)>>, <<"=", TV("float", 2)>>, <<">", TV("float", -4)>>, <<"=", TV("bool", 1)>>, <<"=", TV("bool", 0)>>,
+OpVals == {<<"=", StrV("v1")>>, <<"=", IntV(5)>>, <<"=", IntV(-5)>>, <<"=", TV("float", 3)>>, <<"=", TV("float", 2)>>, <<">", TV("float", -4)>>,
+           \* (|n| >= 1000000 stands for the whole number 10^(|n| - 1000000): floats beyond the range of 64-bit integers)
+           <<"=", TV("float", 1000019)>>, <<"<=", TV("float", -1000020)>>, <<">", TV("float", 1000015)>>, <<"=", TV("bool", 1)>>, <<"=", TV("bool", 0)>>,
            <<"=", TV("null", 0)>>, <<"!=", StrV("v1")>>, <<"!=", IntV(5)>>, <<"!=", TV("float", 3)>>,
            <<">", IntV(5)>>, <<">=", IntV(5)>>, <<"<", IntV(5)>>, <<"<=", IntV(-5)>>, <<">", TV("float", 3)>>, <<"<=", TV("float", 3)>>,
            <<"=", TV("datetime", 61)>>, <<">", TV("datetime", 61)>>, <<"<=", TV("datetime", 61)>>}
